@@ -64,6 +64,47 @@ CHECKS = {
              "Generated arrays with infinite extremes, narrow-integer data whose totals exceed the input width, and non-dyadic "
              "float data for var/std; every engine and strategy against exact references and eager-vs-chunked closeness.",
              "Totals kept < 2**53; var tolerance 1e-9 rel + 1e-12 abs on the variance.", "§4 C20"),
+    "C07": C("Hypothesis vs tuple-key reference with pandas.cut bin membership; provenance weights",
+             "Generated 1-3 groupers (categorical / binned, broadcasting shapes, values on and around edges, NaN, +-inf), eager and "
+             "chunked, numpy and dask groupers: every cell equals the reduction over elements with that label tuple; dropped "
+             "elements contribute nowhere; returned labels equal the requested ones.",
+             "Bin membership oracle is pandas.cut; datetime bin labels excluded (baseline-broken in this environment).", "§4 C07"),
+    "C08": C("Hypothesis vs slice-by-slice 1-D reference over every axis subset / order / sign; eager vs chunked",
+             "Generated 1-4-D arrays with 1-3-D labels, every non-empty axis subset in any order and sign, uneven missing labels: "
+             "each kept index equals the 1-D reduction of its slice; shape = batch + kept dims + group axis; chunked along any axis.",
+             "arg-reductions with a single reduced axis only.", "§4 C08"),
+    "C09": C("Exhaustive small-scope enumeration of find_group_cohorts + Hypothesis; graph dependency closures; base-3 provenance sums",
+             "The planner is run on every canonical code array up to length 6 (8 thorough) x every chunk composition x merge x "
+             "expected variants and all small 2-D arrays, against a validity predicate (partition, block coverage, blockwise "
+             "only if confined); graphs of every strategy are checked for dependency closure per output chunk; provenance sums "
+             "prove every member is counted exactly once.",
+             "Arrays whose codes are all -1 are skipped; provenance limited to n<=33 (exact in float64).", "§4 C09"),
+    "C11": C("Enumeration of the full dtype cell table x every plan + Hypothesis data; NumPy-derived expected dtypes; per-block truthfulness",
+             "Every (input dtype x reduction x dtype= x fill) cell is run on every plan (4 engines, 5 chunked strategies x 2 "
+             "chunkings): dtype/shape plan-independent, equal to the table derived from NumPy at run time, and the lazy result's "
+             "announced dtype/shape/chunks/meta equal those of the computed array and of every computed block.",
+             "Cells without a NumPy convention are held to plan-independence and truthfulness only.", "§4 C11"),
+    "C15": C("Hypothesis vs native xarray groupby (flox disabled), layered comparison; pass-through and core-array oracles",
+             "Generated DataArrays/Datasets (1-4 permuted dims, 1-D/2-D/external/two groupers, dim variants, skipna, min_count, "
+             "chunking) compared layer by layer (variables, values, dim order, coordinates, names/attrs) with native xarray; "
+             "variables lacking the reduced dims must pass through; groupby_reduce on raw arrays where native refuses.",
+             "Native xarray on the in-memory object is the oracle; known deviations of the plain-reduction shortcut are recorded.", "§4 C15"),
+    "C16": C("Hypothesis order predicates + label->value mapping vs NumPy reference, provenance weights",
+             "Generated unsorted labels (int/float+NaN/str/large ints), sort on/off, expected_groups absent/sorted/permuted/"
+             "superset, every strategy: ascending & duplicate-free when sorted, expected / first-appearance order otherwise, "
+             "and the label->value pairing always equals the reference mapping.",
+             "Chunked calls without expected_groups and sort=False are held to the mapping only.", "§4 C16"),
+    "C17": C("Hypothesis + exhaustive small scope postcondition checks on rechunk helpers and method='blockwise'",
+             "Generated label sequences (sequential / periodic / irregular), chunkings, chunksize hints, forced-label sets, array / "
+             "DataArray / Dataset flavours: values, shape, dtype kept, chunks positive and complete, other axes untouched, input "
+             "unmodified, no straddling group (blockwise), forced labels start chunks and old borders kept (cohorts), "
+             "method='blockwise' == eager.",
+             "No-straddle postcondition asserted for sequential labels only (documented domain).", "§4 C17"),
+    "C19": C("Hypothesis-sampled (quick) / fully enumerated (thorough) argument-product cells, outcome-lattice oracle across methods",
+             "Each configuration cell is evaluated under map-reduce, automatic, cohorts and (when valid) blockwise plans: failures "
+             "must be ValueError/NotImplementedError/ImportError at call or compute time, values must equal the eager result, "
+             "the automatic plan must work wherever map-reduce does, explicit plans must match or refuse.",
+             "Small fixed-shape data per cell; numba engine sampled sparsely in the quick tier.", "§4 C19"),
 }
 
 NOT_APPLICABLE = {
